@@ -73,6 +73,7 @@ func judge(eng *Engine, cfg *Config, ck *CheckCfg, property, tier string, seed i
 	otherCrash := 0
 	perEntry := map[string]map[string]int{}
 	var accAll []access
+	accSeen := map[string]bool{}
 	for ti, tr := range results {
 		t := tasks[ti]
 		if tr.Fault != "" {
@@ -105,8 +106,13 @@ func judge(eng *Engine, cfg *Config, ck *CheckCfg, property, tier string, seed i
 					covers[t.Entry.Entry+":"+c]++
 				}
 				assertsChecked += r.Asserts
-				if len(accAll) < 20000 {
-					accAll = append(accAll, r.Acc...)
+				for _, a := range r.Acc {
+					a.Entry = t.Entry.Entry
+					k := fmt.Sprint(a.Cell, a.Write, a.Held, a.Entry)
+					if !accSeen[k] {
+						accSeen[k] = true
+						accAll = append(accAll, a)
+					}
 				}
 				if r.Model != nil {
 					if len(samples) < 6 {
@@ -230,6 +236,25 @@ func judge(eng *Engine, cfg *Config, ck *CheckCfg, property, tier string, seed i
 	validated, mismatches := 0, []string(nil)
 	if os.Getenv("VERIF_NO_VALIDATE") == "" {
 		validated, mismatches = validatePaths(eng, valPaths, property)
+	}
+
+	// lockset (C16, L1): every pair of accesses to one shared cell from operations that may run
+	// concurrently, at least one of them a write, must hold a common lock (read locks only
+	// count against writers)
+	if property == "C16" {
+		for _, lv := range locksetViolations(accAll) {
+			v := &violation{Entry: lv.entry, Label: "C16 shared state is accessed under a common lock", Kind: "lockset", Msg: lv.msg, Pos: lv.pos, Native: "not-replayable (lockset verdict over symbolic paths; no schedule is executed)"}
+			k := "lockset|" + lv.msg
+			if _, ok := groups[k]; !ok {
+				order = append(order, k)
+			}
+			groups[k] = append(groups[k], v)
+			os.MkdirAll(replayDir, 0o755)
+			b, _ := json.MarshalIndent(map[string]interface{}{"property": property, "kind": "lockset", "what": lv.msg, "at": lv.pos}, "", " ")
+			h := sha1.Sum(b)
+			v.Replay = filepath.Join(replayDir, fmt.Sprintf("lockset-%x.json", h[:5]))
+			os.WriteFile(v.Replay, b, 0o644)
+		}
 	}
 
 	// verdict
@@ -449,4 +474,74 @@ func locksetSummary(eng *Engine, acc []access) interface{} {
 		out = out[:200]
 	}
 	return out
+}
+
+type locksetViol struct{ entry, msg, pos string }
+
+func heldSet(h string) (w map[string]bool, r map[string]bool) {
+	w, r = map[string]bool{}, map[string]bool{}
+	for _, p := range strings.Split(h, ",") {
+		if strings.HasPrefix(p, "W:") {
+			w[p[2:]] = true
+		} else if strings.HasPrefix(p, "R:") {
+			r[p[2:]] = true
+		}
+	}
+	return
+}
+
+func commonLock(a, b access) bool {
+	aw, ar := heldSet(a.Held)
+	bw, br := heldSet(b.Held)
+	for l := range aw {
+		if bw[l] || br[l] {
+			return true
+		}
+	}
+	for l := range bw {
+		if ar[l] {
+			return true
+		}
+	}
+	return false
+}
+
+func locksetViolations(acc []access) []locksetViol {
+	byCell := map[string][]access{}
+	for _, a := range acc {
+		byCell[a.Cell] = append(byCell[a.Cell], a)
+	}
+	var out []locksetViol
+	seen := map[string]bool{}
+	var cells []string
+	for c := range byCell {
+		cells = append(cells, c)
+	}
+	sort.Strings(cells)
+	for _, c := range cells {
+		as := byCell[c]
+		for i := range as {
+			for j := i; j < len(as); j++ {
+				if !as[i].Write && !as[j].Write {
+					continue
+				}
+				if commonLock(as[i], as[j]) {
+					continue
+				}
+				msg := fmt.Sprintf("cell %s: %s in %s (holding %q) vs %s in %s (holding %q)", c, rw(as[i].Write), as[i].Fn, as[i].Held, rw(as[j].Write), as[j].Fn, as[j].Held)
+				if !seen[msg] {
+					seen[msg] = true
+					out = append(out, locksetViol{entry: as[i].Entry, msg: msg, pos: c})
+				}
+			}
+		}
+	}
+	return out
+}
+
+func rw(w bool) string {
+	if w {
+		return "write"
+	}
+	return "read"
 }
